@@ -2074,6 +2074,17 @@ func (t *tScreen) engage() error {
 	t.running = true
 	if ws, err := t.tty.WindowSize(); err == nil && ws.Width != 0 && ws.Height != 0 {
 		t.cells.Resize(ws.Width, ws.Height)
+		if t.w != 0 && t.h != 0 && (ws.Width != t.w || ws.Height != t.h) {
+			// The window changed size while we were suspended.  Keep the
+			// recorded size in step with the cell buffer: the draw loop
+			// walks t.w x t.h and must not run past the buffer.
+			t.w, t.h = ws.Width, ws.Height
+			ev := &EventResize{t: time.Now(), ws: ws}
+			select {
+			case t.eventQ <- ev:
+			default:
+			}
+		}
 	}
 	stopQ := make(chan struct{})
 	t.stopQ = stopQ
